@@ -2,14 +2,29 @@
 Props/C19.lean — INCLUDE is textual inclusion.
 
 `assemble fs (pre ++ [l] ++ post)` where `l` is an `INCLUDE f` line equals the assembly of the program
-in which the line is replaced by the lines of `f`.  The equality needs a side condition: the Python
-code (and the model) detect a missing file / unbounded recursion (`internal`) while *expanding*, i.e.
-after the whole top-level file has been parsed, but a syntax error inside the included file while
-expanding too, whereas after textual substitution the same syntax error is found while *parsing*, before
-any expansion.  So when the left side ends in `internal` the right side may end differently
-(`C19_finding_order`).  Known finding: a missing include file and an include cycle escape as
-FileNotFoundError / RecursionError instead of a diagnostic (`C19_finding_missing`, `C19_finding_cycle`).
-Helpers are in Lemmas/FrontInclude.lean.
+in which the line is replaced by the lines of `f`.
+
+After the repair of INCLUDE handling a missing include file and an inclusion cycle are diagnostics
+(`include_missing_diag`, `include_cycle_diag`); they used to escape as FileNotFoundError / RecursionError.
+The only `internal` outcome left in the expansion stage is exhaustion of the recursion budget: more than
+64 nested distinct files (Python: RecursionError).  That residue is why the equality still carries side
+conditions, and there are two of them:
+
+* the INCLUDE side must not end in `internal`: the nesting below `INCLUDE f` is one level deeper than the
+  nesting of the spliced lines, and an exhausted budget in the lines *before* the INCLUDE is found during
+  expansion, after the whole file has been parsed, whereas after substitution a syntax error inside `f`
+  is found while parsing, before any expansion (`C19_finding_depth_textual`);
+* the substituted side must not end in `internal` either.  This one is caused by cycle detection: with
+  the INCLUDE line the file `f` is in the chain of files being processed while its lines are expanded, so
+  an `INCLUDE f` further down (through any number of files) is reported at once; after substitution `f`
+  is not in the chain, the inner `INCLUDE f` is expanded once more and the cycle is reported one level
+  deeper.  Both sides report a diagnostic — unless the extra level exhausts the budget
+  (`include_textual_rhs_needed`: INCLUDE side `diag`, substituted side `internal`).
+
+`include_textual_cases` is the unconditional form (three cases), `include_textual` the equality under the
+two side conditions, `include_textual_ok` the form without side conditions for accepted programs.
+The statement at full strength (`C19_Statement`) stays refuted, now only by programs nesting more than
+64 files (`C19_not_full`).  Helpers are in Lemmas/FrontInclude.lean.
 -/
 import CoCoVerif.Lemmas.FrontInclude
 
@@ -19,6 +34,10 @@ open CoCo CoCo.Asm
 /-- `l` is a well-formed `INCLUDE f` line -/
 def IsInclude (l : Str) (f : Str) : Prop :=
   ∃ s, parseLine l = .ok (some s) ∧ s.row.isInclude = true ∧ s.operand.text = f ∧ f ≠ []
+
+/-- `s` is an `INCLUDE f` statement -/
+def IsIncludeStmt (s : Stmt) (f : Str) : Prop :=
+  s.row.isInclude = true ∧ s.operand.text = f ∧ f ≠ []
 
 /-- executable criterion for `IsInclude` (used for the concrete examples) -/
 def isIncludeB (l f : Str) : Bool :=
@@ -40,7 +59,7 @@ theorem IsInclude.cond {f : Str} {s : Stmt} (h : s.row.isInclude = true ∧ s.op
   subst h2
   simp [h1, h3]
 
-/-! ### the statement at full strength (false for the code as it stands) -/
+/-! ### the statement at full strength (false for the model: nesting deeper than 64 files) -/
 
 /-- clause 1: unconditional textual inclusion -/
 def C19_Textual : Prop :=
@@ -59,38 +78,93 @@ def C19_CycleDiag : Prop :=
 
 def C19_Statement : Prop := C19_Textual ∧ C19_MissingDiag ∧ C19_CycleDiag
 
-/-! ### what holds -/
+/-! ### textual inclusion: what holds -/
 
-/-- Strong form: the equality holds as soon as the parse-and-expand stage `front` of the left side does
-not end in `internal` (a later `internal`, e.g. an address above 65535, is the same on both sides). -/
+/-- Unconditional form.  The two sides agree; or the INCLUDE side exhausts the recursion budget
+(`internal`); or the INCLUDE side reports a diagnostic and the substituted side exhausts the budget
+(a cycle through `f` is reported one level deeper after substitution). -/
+theorem include_textual_cases (fs : Files) (pre post ls : List Str) (l f : Str)
+    (hl : IsInclude l f) (hf : fs.get? f = some ls) :
+    assemble fs (pre ++ [l] ++ post) = assemble fs (pre ++ ls ++ post) ∨
+    assemble fs (pre ++ [l] ++ post) = .internal ∨
+    (assemble fs (pre ++ [l] ++ post) = .diag ∧ assemble fs (pre ++ ls ++ post) = .internal) := by
+  obtain ⟨s, hs, h⟩ := hl
+  have hc := IsInclude.cond h
+  obtain ⟨_, h2, _⟩ := h
+  subst h2
+  rcases front_include_cases (pre := pre) (post := post) hs hc hf with h | h | ⟨h1, h2⟩
+  · exact .inl (assemble_congr h)
+  · exact .inr (.inl (front_internal h))
+  · exact .inr (.inr ⟨front_diag h1, front_internal h2⟩)
+
+/-- Strong form: the equality holds as soon as the parse-and-expand stage `front` ends in `internal` on
+neither side (a later `internal`, e.g. an address above 65535, is the same on both sides). -/
 theorem include_textual_strong (fs : Files) (pre post ls : List Str) (l f : Str)
     (hl : IsInclude l f) (hf : fs.get? f = some ls)
-    (hne : front fs (pre ++ [l] ++ post) ≠ .internal) :
+    (hne : front fs (pre ++ [l] ++ post) ≠ .internal)
+    (hne' : front fs (pre ++ ls ++ post) ≠ .internal) :
     assemble fs (pre ++ [l] ++ post) = assemble fs (pre ++ ls ++ post) := by
   obtain ⟨s, hs, h⟩ := hl
   have hc := IsInclude.cond h
   obtain ⟨_, h2, _⟩ := h
   subst h2
-  exact assemble_congr (front_include hs hc hf hne)
+  exact assemble_congr (front_include hs hc hf hne hne')
 
-/-- Main theorem of C19.  The hypothesis `≠ .internal` cannot be dropped: a missing file or exhausted
-recursion elsewhere in the program is detected at a different moment on the two sides
-(see `C19_finding_order`). -/
+/-- If the INCLUDE side gets through parsing and expansion, the substituted side gets through with the
+same statements and the assemblies agree (no condition on the substituted side). -/
+theorem include_textual_front_ok (fs : Files) (pre post ls : List Str) (l f : Str) (ss : List Stmt)
+    (hl : IsInclude l f) (hf : fs.get? f = some ls)
+    (hok : front fs (pre ++ [l] ++ post) = .ok ss) :
+    front fs (pre ++ ls ++ post) = .ok ss ∧
+    assemble fs (pre ++ [l] ++ post) = assemble fs (pre ++ ls ++ post) := by
+  obtain ⟨s, hs, h⟩ := hl
+  have hc := IsInclude.cond h
+  obtain ⟨_, h2, _⟩ := h
+  subst h2
+  have h' := front_include_ok hs hc hf hok
+  exact ⟨h', assemble_congr (by rw [hok, h'])⟩
+
+/-- Main theorem of C19.  Neither hypothesis can be dropped: see `C19_finding_depth_textual` for the first
+and `include_textual_rhs_needed` for the second.  (Before the repair of INCLUDE handling the first one
+was also needed because of missing files; `include_textual_rhs_needed` is the price of the cycle check:
+"the INCLUDE side does not end in `internal`" alone is not sufficient.) -/
 theorem include_textual (fs : Files) (pre post ls : List Str) (l f : Str)
     (hl : IsInclude l f) (hf : fs.get? f = some ls)
-    (hne : assemble fs (pre ++ [l] ++ post) ≠ .internal) :
+    (hne : assemble fs (pre ++ [l] ++ post) ≠ .internal)
+    (hne' : assemble fs (pre ++ ls ++ post) ≠ .internal) :
     assemble fs (pre ++ [l] ++ post) = assemble fs (pre ++ ls ++ post) :=
-  include_textual_strong fs pre post ls l f hl hf (front_ne_internal hne)
+  include_textual_strong fs pre post ls l f hl hf (front_ne_internal hne) (front_ne_internal hne')
+
+/-- for accepted programs no side condition is needed -/
+theorem include_textual_ok (fs : Files) (pre post ls : List Str) (l f : Str) (a : Assembly)
+    (hl : IsInclude l f) (hf : fs.get? f = some ls)
+    (hok : assemble fs (pre ++ [l] ++ post) = .ok a) :
+    assemble fs (pre ++ ls ++ post) = .ok a := by
+  rcases include_textual_cases fs pre post ls l f hl hf with h | h | ⟨h, _⟩
+  · rw [← h, hok]
+  · rw [hok] at h; cases h
+  · rw [hok] at h; cases h
+
+/-- a diagnostic on the INCLUDE side is a diagnostic on the substituted side, unless the budget runs out -/
+theorem include_textual_diag (fs : Files) (pre post ls : List Str) (l f : Str)
+    (hl : IsInclude l f) (hf : fs.get? f = some ls)
+    (hd : assemble fs (pre ++ [l] ++ post) = .diag) :
+    assemble fs (pre ++ ls ++ post) = .diag ∨ assemble fs (pre ++ ls ++ post) = .internal := by
+  rcases include_textual_cases fs pre post ls l f hl hf with h | h | ⟨_, h⟩
+  · exact .inl (by rw [← h, hd])
+  · rw [hd] at h; cases h
+  · exact .inr h
 
 /-- read right to left: a successful assembly of the substituted program is what the INCLUDE gives,
-unless the INCLUDE version escapes with an internal error -/
-theorem include_textual_conv (fs : Files) (pre post ls : List Str) (l f : Str)
-    (hl : IsInclude l f) (hf : fs.get? f = some ls) :
-    assemble fs (pre ++ [l] ++ post) = assemble fs (pre ++ ls ++ post) ∨
-    assemble fs (pre ++ [l] ++ post) = .internal := by
-  by_cases h : assemble fs (pre ++ [l] ++ post) = .internal
+unless the INCLUDE version exhausts the recursion budget -/
+theorem include_textual_conv (fs : Files) (pre post ls : List Str) (l f : Str) (a : Assembly)
+    (hl : IsInclude l f) (hf : fs.get? f = some ls)
+    (hok : assemble fs (pre ++ ls ++ post) = .ok a) :
+    assemble fs (pre ++ [l] ++ post) = .ok a ∨ assemble fs (pre ++ [l] ++ post) = .internal := by
+  rcases include_textual_cases fs pre post ls l f hl hf with h | h | ⟨_, h⟩
+  · exact .inl (by rw [h, hok])
   · exact .inr h
-  · exact .inl (include_textual fs pre post ls l f hl hf h)
+  · rw [hok] at h; cases h
 
 /-- `b` is obtained from `a` by replacing INCLUDE lines by file contents, any number of times, at any
 depth -/
@@ -100,23 +174,66 @@ inductive Inlines (fs : Files) : List Str → List Str → Prop
       IsInclude l f → fs.get? f = some ls → Inlines fs (pre ++ ls ++ post) b →
       Inlines fs (pre ++ [l] ++ post) b
 
-/-- nested includes: any sequence of substitutions -/
-theorem include_textual_star {fs : Files} {a b : List Str} (h : Inlines fs a b)
+/-- the same, where no intermediate program exhausts the recursion budget -/
+inductive InlinesG (fs : Files) : List Str → List Str → Prop
+  | refl (a : List Str) : InlinesG fs a a
+  | step {pre post ls : List Str} {l f : Str} {b : List Str} :
+      IsInclude l f → fs.get? f = some ls → assemble fs (pre ++ ls ++ post) ≠ .internal →
+      InlinesG fs (pre ++ ls ++ post) b → InlinesG fs (pre ++ [l] ++ post) b
+
+/-- nested includes: any sequence of substitutions, starting from a program that gets through parsing
+and expansion -/
+theorem include_textual_star {fs : Files} {a b : List Str} {ss : List Stmt} (h : Inlines fs a b)
+    (hok : front fs a = .ok ss) : front fs b = .ok ss ∧ assemble fs a = assemble fs b := by
+  induction h with
+  | refl a => exact ⟨hok, rfl⟩
+  | step hl hf _ ih =>
+    obtain ⟨h1, h2⟩ := include_textual_front_ok fs _ _ _ _ _ ss hl hf hok
+    obtain ⟨h3, h4⟩ := ih h1
+    exact ⟨h3, h2.trans h4⟩
+
+/-- nested includes, accepted programs -/
+theorem include_textual_star_ok {fs : Files} {a b : List Str} {x : Assembly} (h : Inlines fs a b)
+    (hok : assemble fs a = .ok x) : assemble fs b = .ok x := by
+  obtain ⟨ss, hss⟩ := front_ok_of_assemble_ok hok
+  rw [← (include_textual_star h hss).2, hok]
+
+/-- nested includes, any outcome, as long as no intermediate program exhausts the budget -/
+theorem include_textual_starG {fs : Files} {a b : List Str} (h : InlinesG fs a b)
     (hne : assemble fs a ≠ .internal) : assemble fs a = assemble fs b := by
   induction h with
   | refl a => rfl
-  | step hl hf _ ih =>
-    have h1 := include_textual fs _ _ _ _ _ hl hf hne
+  | step hl hf hne' _ ih =>
+    have h1 := include_textual fs _ _ _ _ _ hl hf hne hne'
     rw [h1]
-    exact ih (by rw [← h1]; exact hne)
+    exact ih hne'
 
 /-- the depth-2 instance: `f` itself contains an `INCLUDE f'` line -/
 theorem include_textual_nested (fs : Files) (pre post pre' post' ls' : List Str) (l f l' f' : Str)
     (hl : IsInclude l f) (hf : fs.get? f = some (pre' ++ [l'] ++ post'))
     (hl' : IsInclude l' f') (hf' : fs.get? f' = some ls')
-    (hne : assemble fs (pre ++ [l] ++ post) ≠ .internal) :
+    (hne : assemble fs (pre ++ [l] ++ post) ≠ .internal)
+    (hne1 : assemble fs (pre ++ (pre' ++ [l'] ++ post') ++ post) ≠ .internal)
+    (hne2 : assemble fs (pre ++ (pre' ++ ls' ++ post') ++ post) ≠ .internal) :
     assemble fs (pre ++ [l] ++ post) = assemble fs (pre ++ (pre' ++ ls' ++ post') ++ post) := by
-  apply include_textual_star _ hne
+  apply include_textual_starG _ hne
+  refine .step hl hf hne1 ?_
+  have e1 : pre ++ (pre' ++ [l'] ++ post') ++ post = (pre ++ pre') ++ [l'] ++ (post' ++ post) := by
+    simp [List.append_assoc]
+  have e2 : pre ++ (pre' ++ ls' ++ post') ++ post = (pre ++ pre') ++ ls' ++ (post' ++ post) := by
+    simp [List.append_assoc]
+  rw [e2] at hne2
+  rw [e1, e2]
+  exact .step hl' hf' hne2 (.refl _)
+
+/-- the depth-2 instance for accepted programs -/
+theorem include_textual_nested_ok (fs : Files) (pre post pre' post' ls' : List Str) (l f l' f' : Str)
+    (x : Assembly)
+    (hl : IsInclude l f) (hf : fs.get? f = some (pre' ++ [l'] ++ post'))
+    (hl' : IsInclude l' f') (hf' : fs.get? f' = some ls')
+    (hok : assemble fs (pre ++ [l] ++ post) = .ok x) :
+    assemble fs (pre ++ (pre' ++ ls' ++ post') ++ post) = .ok x := by
+  apply include_textual_star_ok _ hok
   refine .step hl hf ?_
   have e1 : pre ++ (pre' ++ [l'] ++ post') ++ post = (pre ++ pre') ++ [l'] ++ (post' ++ post) := by
     simp [List.append_assoc]
@@ -125,32 +242,76 @@ theorem include_textual_nested (fs : Files) (pre post pre' post' ls' : List Str)
   rw [e1, e2]
   exact .step hl' hf' (.refl _)
 
-/-- Known finding, general form: the file is missing, the rest of the program parses and the includes
-before the line expand: `assemble` ends in `internal` (FileNotFoundError escapes). -/
-theorem include_missing_internal (fs : Files) (pre post : List Str) (l f : Str) (rp rq e : List Stmt)
+/-! ### missing file and inclusion cycle: diagnostics -/
+
+theorem IsIncludeStmt.cond {s : Stmt} {f : Str} (h : IsIncludeStmt s f) :
+    (s.row.isInclude && !s.operand.text.isEmpty) = true := IsInclude.cond h
+
+/-- Missing file, at the level of `expand`: whatever the fuel (at least one unit), whatever the chain of
+files being processed, whatever follows: if the statements before the INCLUDE expand, the result is
+`diag` ("Unable to read ..."). -/
+theorem include_missing_diag_expand (fs : Files) (n : Nat) (inc : List Str) (pre post e : List Stmt)
+    (s : Stmt) (f : Str) (hs : IsIncludeStmt s f) (hf : fs.get? f = none)
+    (he : expand fs (n + 1) inc pre = .ok e) :
+    expand fs (n + 1) inc (pre ++ [s] ++ post) = .diag := by
+  have hc := hs.cond
+  obtain ⟨_, h2, _⟩ := hs
+  subst h2
+  exact expand_missing hc hf (by rw [← expand_succ]; exact he)
+
+/-- Cycle, general statement at the level of `expand`: an INCLUDE of a file that is in the chain of files
+being processed gives `diag` ("... includes itself"), if the statements before it expand. -/
+theorem include_cycle_diag_expand (fs : Files) (n : Nat) (inc : List Str) (pre post e : List Stmt)
+    (s : Stmt) (f : Str) (hs : IsIncludeStmt s f) (hc : f ∈ inc)
+    (he : expand fs (n + 1) inc pre = .ok e) :
+    expand fs (n + 1) inc (pre ++ [s] ++ post) = .diag := by
+  have hcond := hs.cond
+  obtain ⟨_, h2, _⟩ := hs
+  subst h2
+  exact expand_cycle hcond hc (by rw [← expand_succ]; exact he)
+
+/-- a diagnostic inside an included file is a diagnostic of the including file (this is how a cycle
+through several files surfaces) -/
+theorem include_diag_up (fs : Files) (n : Nat) (inc : List Str) (pre post e pg : List Stmt)
+    (s : Stmt) (g : Str) (lg : List Str) (hs : IsIncludeStmt s g) (hg : g ∉ inc)
+    (hf : fs.get? g = some lg) (hp : parseLines lg = .ok pg)
+    (hd : expand fs n (inc ++ [g]) pg = .diag)
+    (he : expand fs (n + 1) inc pre = .ok e) :
+    expand fs (n + 1) inc (pre ++ [s] ++ post) = .diag := by
+  have hcond := hs.cond
+  obtain ⟨_, h2, _⟩ := hs
+  subst h2
+  rw [expand_succ] at he ⊢
+  rw [go_append, go_append, go_single, expandOne_some hcond (by simpa using hg) hf, hp, he]
+  show oapp (oapp _ (expand fs n _ pg)) _ = _
+  rw [hd]; rfl
+
+/-- Missing file: the rest of the program parses and the statements before the line expand:
+`assemble` ends in `diag` (was: `internal`, FileNotFoundError escaping). -/
+theorem include_missing_diag (fs : Files) (pre post : List Str) (l f : Str) (rp rq e : List Stmt)
     (hl : IsInclude l f) (hf : fs.get? f = none)
-    (hp : parseLines pre = .ok rp) (hq : parseLines post = .ok rq) (he : expand fs 64 rp = .ok e) :
-    assemble fs (pre ++ [l] ++ post) = .internal := by
+    (hp : parseLines pre = .ok rp) (hq : parseLines post = .ok rq) (he : expand fs 64 [] rp = .ok e) :
+    assemble fs (pre ++ [l] ++ post) = .diag := by
   obtain ⟨s, hs, h⟩ := hl
   have hc := IsInclude.cond h
   obtain ⟨_, h2, _⟩ := h
   subst h2
-  exact front_internal (front_missing hs hc hf hp hq he)
+  exact front_diag (front_missing hs hc hf hp hq he)
 
-/-- Known finding, general form: file `f` contains an `INCLUDE f` line (after lines without INCLUDE);
-any program that reaches an `INCLUDE f` ends in `internal` (RecursionError escapes). -/
-theorem include_cycle_internal (fs : Files) (pre post pre0 post0 : List Str) (l f : Str)
+/-- Direct cycle: file `f` contains an `INCLUDE f` line (after lines without INCLUDE); any program that
+reaches an `INCLUDE f` ends in `diag` (was: `internal`, RecursionError escaping). -/
+theorem include_cycle_diag (fs : Files) (pre post pre0 post0 : List Str) (l f : Str)
     (rp rq rp0 rq0 e : List Stmt)
     (hl : IsInclude l f) (hf : fs.get? f = some (pre ++ [l] ++ post))
     (hp : parseLines pre = .ok rp) (hnp : ∀ x ∈ rp, x.row.isInclude = false)
     (hq : parseLines post = .ok rq)
-    (hp0 : parseLines pre0 = .ok rp0) (hq0 : parseLines post0 = .ok rq0) (he : expand fs 64 rp0 = .ok e) :
-    assemble fs (pre0 ++ [l] ++ post0) = .internal := by
+    (hp0 : parseLines pre0 = .ok rp0) (hq0 : parseLines post0 = .ok rq0) (he : expand fs 64 [] rp0 = .ok e) :
+    assemble fs (pre0 ++ [l] ++ post0) = .diag := by
   obtain ⟨s, hs, h⟩ := hl
   have hc := IsInclude.cond h
   obtain ⟨_, h2, _⟩ := h
   subst h2
-  exact front_internal (front_self_include hs hc hf hp hnp hq hp0 hq0 he)
+  exact front_diag (front_self_include hs hc hf hp hnp hq hp0 hq0 he)
 
 /-! ### concrete witnesses -/
 
@@ -165,29 +326,34 @@ theorem isInclude_incB : IsInclude incB "b.asm".toList := isInclude_of_check (by
 set_option maxRecDepth 100000 in
 theorem isInclude_incM : IsInclude incM "m.asm".toList := isInclude_of_check (by decide)
 
-theorem expand_nil (fs : Files) : expand fs 64 [] = .ok [] := by
+theorem expand_nil (fs : Files) (inc : List Str) : expand fs 64 inc [] = .ok [] := by
   rw [show (64 : Nat) = 63 + 1 from rfl, expand_succ, go_nil]
 
 /-- missing file: `INCLUDE a.asm` with an empty host file system -/
-theorem missing_example : assemble [] [incA] = .internal :=
-  include_missing_internal [] [] [] incA _ [] [] [] isInclude_incA rfl rfl rfl (expand_nil _)
+theorem missing_example : assemble [] [incA] = .diag :=
+  include_missing_diag [] [] [] incA _ [] [] [] isInclude_incA rfl rfl rfl (expand_nil _ _)
 
-/-- cycle: `a.asm` consists of the line `INCLUDE a.asm` -/
-theorem cycle_example : assemble [("a.asm".toList, [incA])] [incA] = .internal :=
-  include_cycle_internal _ [] [] [] [] incA _ [] [] [] [] [] isInclude_incA (by decide)
-    rfl (by simp) rfl rfl rfl (expand_nil _)
+/-- direct cycle: `a.asm` consists of the line `INCLUDE a.asm` -/
+theorem cycle_example : assemble [("a.asm".toList, [incA])] [incA] = .diag :=
+  include_cycle_diag _ [] [] [] [] incA _ [] [] [] [] [] isInclude_incA (by decide)
+    rfl (by simp) rfl rfl rfl (expand_nil _ _)
 
-theorem C19_finding_missing : ¬ C19_MissingDiag := by
-  intro h
-  have := h [] [] [] incA _ isInclude_incA rfl
-  rw [show ([] : List Str) ++ [incA] ++ [] = [incA] from rfl, missing_example] at this
-  cases this
-
-theorem C19_finding_cycle : ¬ C19_CycleDiag := by
-  intro h
-  have := h [("a.asm".toList, [incA])] [] [] incA _ isInclude_incA (by decide)
-  rw [show ([] : List Str) ++ [incA] ++ [] = [incA] from rfl, cycle_example] at this
-  cases this
+/-- cycle through two files: `a.asm` includes `b.asm`, `b.asm` includes `a.asm` -/
+theorem cycle2_example :
+    assemble [("a.asm".toList, [incB]), ("b.asm".toList, [incA])] [incA] = .diag := by
+  obtain ⟨sa, ha, hsa⟩ := isInclude_incA
+  obtain ⟨sb, hb, hsb⟩ := isInclude_incB
+  apply front_diag
+  unfold front
+  rw [parseLines_single_some ha]
+  -- the top-level INCLUDE a.asm: its lines end in `diag` under the chain [a.asm] ...
+  refine include_diag_up _ 63 [] [] [] [] [sb] sa _ [incB] hsa (by simp) (by decide)
+    (parseLines_single_some hb) ?_ (expand_nil _ _)
+  -- ... because INCLUDE b.asm does, under the chain [a.asm, b.asm] ...
+  refine include_diag_up _ 62 _ [] [] [] [sa] sb _ [incA] hsb (by decide) (by decide)
+    (parseLines_single_some ha) ?_ (by rw [expand_succ, go_nil])
+  -- ... where INCLUDE a.asm is an INCLUDE of a file in the chain
+  exact include_cycle_diag_expand _ 61 _ [] [] [] sa _ hsa (by decide) (by rw [expand_succ, go_nil])
 
 def bogus : Str := " BOGUS\n".toList
 
@@ -196,44 +362,279 @@ theorem parseLine_bogus : parseLine bogus = .diag := by
   have : (match parseLine bogus with | .diag => true | _ => false) = true := by decide
   split at this <;> simp_all
 
-/-- The side condition of `include_textual` is needed: `INCLUDE m.asm` (missing) followed by
-`INCLUDE b.asm` where `b.asm` holds a syntax error.  With the INCLUDE the run ends in `internal`
-(the missing file is hit first, during expansion); after substituting the text of `b.asm` the syntax
-error is found first, during parsing: `diag`. -/
+/-- The former detection-order counterexample is gone: `INCLUDE m.asm` (missing) followed by
+`INCLUDE b.asm` where `b.asm` holds a syntax error.  With the INCLUDE the missing file is hit first
+(during expansion), after substitution the syntax error is found first (during parsing) — both are
+diagnostics now. -/
 theorem order_example :
-    assemble [("b.asm".toList, [bogus])] ([incM] ++ [incB] ++ []) = .internal ∧
+    assemble [("b.asm".toList, [bogus])] ([incM] ++ [incB] ++ []) = .diag ∧
     assemble [("b.asm".toList, [bogus])] ([incM] ++ [bogus] ++ []) = .diag := by
   constructor
   · obtain ⟨sb, hb, _⟩ := isInclude_incB
-    exact include_missing_internal _ [] [incB] incM _ [] [sb] [] isInclude_incM (by decide) rfl
-      (parseLines_single_some hb) (expand_nil _)
+    exact include_missing_diag _ [] [incB] incM _ [] [sb] [] isInclude_incM (by decide) rfl
+      (parseLines_single_some hb) (expand_nil _ _)
   · obtain ⟨sm, hm, _⟩ := isInclude_incM
     have : parseLines ([incM] ++ [bogus] ++ []) = .diag := by
       simp [parseLines, hm, parseLine_bogus]
     rw [assemble_eq, front, this]
 
-theorem C19_finding_order : ¬ C19_Textual := by
+/-! ### the residue: more than 64 nested files
+
+`D` is a file without INCLUDE, `DD` includes `D`, `DDD` includes `DD`, ... (65 files).  `INCLUDE D⁶⁴`
+(64 letters; 64 files below the program) exhausts the recursion budget. -/
+
+def deepName (i : Nat) : Str := List.replicate (i + 1) 'D'
+def deepLine (i : Nat) : Str := " INCLUDE ".toList ++ deepName i ++ ['\n']
+
+/-- the 65 chain files after some `extra` files -/
+def deepFs (extra : Files) : Files :=
+  extra ++ (List.range 65).map (fun i => (deepName i, if i = 0 then [" NOP\n".toList] else [deepLine (i - 1)]))
+
+def linkOk (fs : Files) (i : Nat) : Bool :=
+  match fs.get? (deepName (i + 1)) with
+  | some ls =>
+    (match parseLines ls with
+     | .ok [s] => s.row.isInclude && !s.operand.text.isEmpty && s.operand.text == deepName i
+     | _ => false)
+  | none => false
+
+def baseOk (fs : Files) : Bool :=
+  match fs.get? (deepName 0) with
+  | some ls => (match parseLines ls with | .ok [s] => !s.row.isInclude | _ => false)
+  | none => false
+
+/-- executable check that `fs` contains the chain -/
+def deepOk (fs : Files) : Bool := baseOk fs && (List.range 64).all (linkOk fs)
+
+theorem deepName_inj {i j : Nat} (h : deepName i = deepName j) : i = j := by
+  have := congrArg List.length h
+  simpa [deepName] using this
+
+theorem deepName_ne {j : Nat} {c : Char} {t : Str} (hc : c ≠ 'D') : deepName j ≠ c :: t := by
   intro h
-  have := h [("b.asm".toList, [bogus])] [incM] [] [bogus] incB _ isInclude_incB (by decide)
-  rw [order_example.1, order_example.2] at this
+  rw [deepName, List.replicate_succ] at h
+  exact hc (List.cons.inj h).1.symm
+
+/-- fuel needed below an `INCLUDE` of the `k`-th chain file -/
+theorem deep_expandOne {fs : Files} (h : deepOk fs = true) :
+    ∃ p0 : List Stmt, ∀ k ≤ 64, ∀ s : Stmt, (s.row.isInclude && !s.operand.text.isEmpty) = true →
+      s.operand.text = deepName k → ∀ (n : Nat) (I : List Str), (∀ j ≤ k, deepName j ∉ I) →
+      expandOne fs n I s = if n ≤ k then .internal else .ok p0 := by
+  unfold deepOk at h
+  simp only [Bool.and_eq_true, List.all_eq_true, List.mem_range] at h
+  obtain ⟨hb, hl⟩ := h
+  unfold baseOk at hb
+  split at hb
+  · rename_i ls0 hf0
+    split at hb
+    · rename_i s0 hp0
+      refine ⟨[s0], expandOne_deep fs deepName 64 [s0] ⟨ls0, hf0, hp0⟩ ?_ ?_ ?_⟩
+      · intro x hx
+        simp only [List.mem_singleton] at hx
+        subst hx
+        simpa using hb
+      · intro i hi
+        have := hl i hi
+        unfold linkOk at this
+        split at this
+        · rename_i ls hf
+          split at this
+          · rename_i s hp
+            simp only [Bool.and_eq_true, beq_iff_eq] at this
+            exact ⟨ls, s, hf, hp, by simp [this.1.1, this.1.2], this.2⟩
+          · cases this
+        · cases this
+      · intro i _ j _ hij
+        exact deepName_inj hij
+    · cases hb
+  · cases hb
+
+/-- a program whose first line is an INCLUDE that exhausts the budget ends in `internal`, if the rest
+parses -/
+theorem deep_prefix_internal {fs : Files} {l : Str} {s : Stmt} {rest : List Str} {rq : List Stmt}
+    (hl : parseLine l = .ok (some s)) (hgo : expandOne fs 63 [] s = .internal)
+    (hq : parseLines rest = .ok rq) : assemble fs ([l] ++ rest) = .internal := by
+  apply front_internal
+  have hp : parseLines ([l] ++ rest) = .ok ([s] ++ rq) := by
+    rw [parseLines_append, parseLines_single_some hl, hq]; rfl
+  rw [front_of_parsed hp, go_append, go_single, hgo]
+  rfl
+
+/-- host files: the chain, `a.asm` = `INCLUDE a.asm`, `b.asm` = a syntax error, `f.asm` = `INCLUDE D⁶²`
+then `INCLUDE g.asm`, `g.asm` = `INCLUDE f.asm`; no `m.asm` -/
+def incF : Str := " INCLUDE f.asm\n".toList
+def incG : Str := " INCLUDE g.asm\n".toList
+
+def fsDeep : Files :=
+  deepFs [("a.asm".toList, [incA]), ("b.asm".toList, [bogus]),
+          ("f.asm".toList, [deepLine 61, incG]), ("g.asm".toList, [incF])]
+
+set_option maxRecDepth 1000000 in
+theorem fsDeep_ok : deepOk fsDeep = true := by decide +kernel
+
+set_option maxRecDepth 1000000 in
+theorem isInclude_deep63 : IsInclude (deepLine 63) (deepName 63) := isInclude_of_check (by decide +kernel)
+set_option maxRecDepth 1000000 in
+theorem isInclude_deep61 : IsInclude (deepLine 61) (deepName 61) := isInclude_of_check (by decide +kernel)
+set_option maxRecDepth 100000 in
+theorem isInclude_incF : IsInclude incF "f.asm".toList := isInclude_of_check (by decide)
+set_option maxRecDepth 100000 in
+theorem isInclude_incG : IsInclude incG "g.asm".toList := isInclude_of_check (by decide)
+
+/-- `INCLUDE D⁶⁴` followed by anything that parses: `internal` -/
+theorem deep63_internal {rest : List Str} {rq : List Stmt} (hq : parseLines rest = .ok rq) :
+    assemble fsDeep ([deepLine 63] ++ rest) = .internal := by
+  obtain ⟨s, hs, h⟩ := isInclude_deep63
+  obtain ⟨p0, hdeep⟩ := deep_expandOne fsDeep_ok
+  refine deep_prefix_internal hs ?_ hq
+  rw [hdeep 63 (by omega) s (IsInclude.cond h) h.2.1 63 [] (by simp), if_pos (Nat.le_refl _)]
+
+/-- Residual finding 1: a missing file after a line that nests too deep is not diagnosed -/
+theorem C19_finding_depth_missing : ¬ C19_MissingDiag := by
+  intro h
+  have h1 := h fsDeep [deepLine 63] [] incM _ isInclude_incM (by decide +kernel)
+  obtain ⟨sm, hm, _⟩ := isInclude_incM
+  have h2 := deep63_internal (rest := [incM] ++ []) (parseLines_single_some hm)
+  rw [← List.append_assoc] at h2
+  rw [h2] at h1
+  cases h1
+
+/-- Residual finding 2: nor is a file that includes itself -/
+theorem C19_finding_depth_cycle : ¬ C19_CycleDiag := by
+  intro h
+  have h1 := h fsDeep [deepLine 63] [] incA _ isInclude_incA (by decide +kernel)
+  obtain ⟨sa, ha, _⟩ := isInclude_incA
+  have h2 := deep63_internal (rest := [incA] ++ []) (parseLines_single_some ha)
+  rw [← List.append_assoc] at h2
+  rw [h2] at h1
+  cases h1
+
+/-- Residual finding 3 (detection order): `INCLUDE D⁶⁴` followed by `INCLUDE b.asm`, where `b.asm` holds
+a syntax error.  With the INCLUDE the exhausted budget is hit first, during expansion: `internal`; after
+substituting the text of `b.asm` the syntax error is found first, during parsing: `diag`.  So the first
+side condition of `include_textual` cannot be dropped. -/
+theorem depth_order_example :
+    assemble fsDeep ([deepLine 63] ++ [incB] ++ []) = .internal ∧
+    assemble fsDeep ([deepLine 63] ++ [bogus] ++ []) = .diag := by
+  constructor
+  · obtain ⟨sb, hb, _⟩ := isInclude_incB
+    have h2 := deep63_internal (rest := [incB] ++ []) (parseLines_single_some hb)
+    rw [← List.append_assoc] at h2
+    exact h2
+  · obtain ⟨s, hs, _⟩ := isInclude_deep63
+    have : parseLines ([deepLine 63] ++ [bogus] ++ []) = .diag := by
+      simp [parseLines, hs, parseLine_bogus]
+    rw [assemble_eq, front, this]
+
+theorem C19_finding_depth_textual : ¬ C19_Textual := by
+  intro h
+  have := h fsDeep [deepLine 63] [] [bogus] incB _ isInclude_incB (by decide +kernel)
+  rw [depth_order_example.1, depth_order_example.2] at this
   cases this
 
-theorem C19_not_full : ¬ C19_Statement := fun h => C19_finding_missing h.2.1
+theorem C19_not_full : ¬ C19_Statement := fun h => C19_finding_depth_textual h.1
+
+/-- The second side condition of `include_textual` cannot be dropped.  `f.asm` is `INCLUDE D⁶²`,
+`INCLUDE g.asm`, and `g.asm` is `INCLUDE f.asm`.  The program `INCLUDE f.asm` ends in `diag`: `D⁶²` is
+expanded with budget to spare, then `g.asm` hits `INCLUDE f.asm` while `f.asm` is in the chain.  The
+program consisting of the lines of `f.asm` has no `f.asm` in the chain: `g.asm` expands `f.asm` once more,
+two levels further down, where `INCLUDE D⁶²` exhausts the budget before the cycle is reported. -/
+theorem include_textual_rhs_needed :
+    assemble fsDeep ([] ++ [incF] ++ []) = .diag ∧
+    assemble fsDeep ([] ++ [deepLine 61, incG] ++ []) = .internal := by
+  obtain ⟨sf, hf, hsf⟩ := isInclude_incF
+  obtain ⟨sg, hg, hsg⟩ := isInclude_incG
+  obtain ⟨sd, hd, hsd⟩ := isInclude_deep61
+  obtain ⟨p0, hdeep⟩ := deep_expandOne fsDeep_ok
+  have hcf := IsInclude.cond hsf
+  have hcg := IsInclude.cond hsg
+  have hcd := IsInclude.cond hsd
+  have hgetf : fsDeep.get? sf.operand.text = some [deepLine 61, incG] := by rw [hsf.2.1]; decide +kernel
+  have hgetg : fsDeep.get? sg.operand.text = some [incF] := by rw [hsg.2.1]; decide +kernel
+  have hpF : parseLines [deepLine 61, incG] = .ok [sd, sg] := by simp [parseLines, hd, hg]
+  have hpG : parseLines [incF] = .ok [sf] := parseLines_single_some hf
+  have hnf : ∀ j, deepName j ≠ "f.asm".toList := fun j => deepName_ne (by decide)
+  have hng : ∀ j, deepName j ≠ "g.asm".toList := fun j => deepName_ne (by decide)
+  have hd62 : ∀ I, (∀ j ≤ 61, deepName j ∉ I) → expandOne fsDeep 62 I sd = .ok p0 := fun I hI => by
+    rw [hdeep 61 (by omega) sd hcd hsd.2.1 62 I hI, if_neg (by omega)]
+  have hd63 : expandOne fsDeep 63 [] sd = .ok p0 := by
+    rw [hdeep 61 (by omega) sd hcd hsd.2.1 63 [] (by simp), if_neg (by omega)]
+  have hd61 : ∀ I, (∀ j ≤ 61, deepName j ∉ I) → expandOne fsDeep 61 I sd = .internal := fun I hI => by
+    rw [hdeep 61 (by omega) sd hcd hsd.2.1 61 I hI, if_pos (by omega)]
+  constructor
+  · apply front_diag
+    rw [show ([] : List Str) ++ [incF] ++ [] = [incF] from rfl, front_of_parsed hpG, go_single,
+      expandOne_some hcf (by simp) hgetf, hpF]
+    show expand fsDeep 63 _ [sd, sg] = _
+    rw [expand_succ, go_cons, go_single, hd62 _ (by
+        intro j _; simp only [List.nil_append, List.mem_singleton]; rw [hsf.2.1]; exact hnf j),
+      expandOne_some hcg (by rw [hsg.2.1, hsf.2.1]; decide) hgetg, hpG]
+    show oapp _ (expand fsDeep 62 _ [sf]) = _
+    rw [expand_succ, go_single, expandOne_cycle hcf (by simp)]
+    rfl
+  · apply front_internal
+    rw [show ([] : List Str) ++ [deepLine 61, incG] ++ [] = [deepLine 61, incG] from rfl,
+      front_of_parsed hpF, go_cons, go_single, hd63,
+      expandOne_some hcg (by simp) hgetg, hpG]
+    show oapp _ (expand fsDeep 63 _ [sf]) = _
+    rw [expand_succ, go_single, expandOne_some hcf (by rw [hsg.2.1, hsf.2.1]; decide) hgetf, hpF]
+    show oapp _ (expand fsDeep 62 _ [sd, sg]) = _
+    rw [expand_succ, go_cons, hd61 _ (by
+        intro j _
+        simp only [List.nil_append, List.mem_append, List.mem_singleton, not_or]
+        rw [hsg.2.1, hsf.2.1]
+        exact ⟨hng j, hnf j⟩)]
+    rfl
+
+/-- ... as a statement about `include_textual`: "the INCLUDE side does not end in `internal`" is not
+sufficient for the equality -/
+theorem include_textual_lhs_not_sufficient :
+    ¬ ∀ (fs : Files) (pre post ls : List Str) (l f : Str), IsInclude l f → fs.get? f = some ls →
+      assemble fs (pre ++ [l] ++ post) ≠ .internal →
+      assemble fs (pre ++ [l] ++ post) = assemble fs (pre ++ ls ++ post) := by
+  intro h
+  have := h fsDeep [] [] [deepLine 61, incG] incF _ isInclude_incF (by decide +kernel)
+    (by rw [include_textual_rhs_needed.1]; simp)
+  rw [include_textual_rhs_needed.1, include_textual_rhs_needed.2] at this
+  cases this
 
 /-! ### the partial statement that is proved -/
 
 def C19_Partial : Prop :=
+  -- textual inclusion, unconditional three-way form
   (∀ (fs : Files) (pre post ls : List Str) (l f : Str), IsInclude l f → fs.get? f = some ls →
-    assemble fs (pre ++ [l] ++ post) ≠ .internal →
+    assemble fs (pre ++ [l] ++ post) = assemble fs (pre ++ ls ++ post) ∨
+    assemble fs (pre ++ [l] ++ post) = .internal ∨
+    (assemble fs (pre ++ [l] ++ post) = .diag ∧ assemble fs (pre ++ ls ++ post) = .internal)) ∧
+  -- textual inclusion, equality
+  (∀ (fs : Files) (pre post ls : List Str) (l f : Str), IsInclude l f → fs.get? f = some ls →
+    assemble fs (pre ++ [l] ++ post) ≠ .internal → assemble fs (pre ++ ls ++ post) ≠ .internal →
     assemble fs (pre ++ [l] ++ post) = assemble fs (pre ++ ls ++ post)) ∧
-  (∀ (fs : Files) (a b : List Str), Inlines fs a b → assemble fs a ≠ .internal →
+  -- nested includes
+  (∀ (fs : Files) (a b : List Str) (x : Assembly), Inlines fs a b → assemble fs a = .ok x →
+    assemble fs b = .ok x) ∧
+  (∀ (fs : Files) (a b : List Str), InlinesG fs a b → assemble fs a ≠ .internal →
     assemble fs a = assemble fs b) ∧
+  -- a missing file is a diagnostic
   (∀ (fs : Files) (pre post : List Str) (l f : Str) (rp rq e : List Stmt), IsInclude l f →
-    fs.get? f = none → parseLines pre = .ok rp → parseLines post = .ok rq → expand fs 64 rp = .ok e →
-    assemble fs (pre ++ [l] ++ post) = .internal)
+    fs.get? f = none → parseLines pre = .ok rp → parseLines post = .ok rq → expand fs 64 [] rp = .ok e →
+    assemble fs (pre ++ [l] ++ post) = .diag) ∧
+  -- an INCLUDE of a file in the chain of files being processed is a diagnostic
+  (∀ (fs : Files) (n : Nat) (inc : List Str) (pre post e : List Stmt) (s : Stmt) (f : Str),
+    IsIncludeStmt s f → f ∈ inc → expand fs (n + 1) inc pre = .ok e →
+    expand fs (n + 1) inc (pre ++ [s] ++ post) = .diag) ∧
+  -- a file that includes itself is a diagnostic
+  (∀ (fs : Files) (pre0 post0 : List Str) (l f : Str) (rp0 rq0 e : List Stmt), IsInclude l f →
+    fs.get? f = some [l] → parseLines pre0 = .ok rp0 → parseLines post0 = .ok rq0 →
+    expand fs 64 [] rp0 = .ok e → assemble fs (pre0 ++ [l] ++ post0) = .diag)
 
 theorem C19_partial : C19_Partial :=
-  ⟨include_textual, fun _ _ _ h hne => include_textual_star h hne, include_missing_internal⟩
+  ⟨include_textual_cases, include_textual,
+   fun _ _ _ _ h hok => include_textual_star_ok h hok,
+   fun _ _ _ h hne => include_textual_starG h hne,
+   include_missing_diag, include_cycle_diag_expand,
+   fun fs pre0 post0 l f rp0 rq0 e hl hf hp0 hq0 he =>
+     include_cycle_diag fs [] [] pre0 post0 l f [] [] rp0 rq0 e hl hf rfl (by simp) rfl hp0 hq0 he⟩
 
 /-! ### non-vacuity -/
 
@@ -253,18 +654,19 @@ theorem fileA_plain : ∃ r, parseLines fileA = .ok r ∧ ∀ x ∈ r, x.row.isI
     exact ⟨r, hr, by simpa using h⟩
   · cases h
 
-/-- the hypothesis of `include_textual_strong` is satisfiable, and the conclusion is not trivial -/
-example : front fsOk ([] ++ [incA] ++ []) ≠ .internal ∧
+/-- the hypothesis of `include_textual_front_ok` (hence those of `include_textual_strong`) is satisfiable,
+and the conclusion is not trivial -/
+example : (∃ ss, front fsOk ([] ++ [incA] ++ []) = .ok ss) ∧
     assemble fsOk [incA] = assemble fsOk fileA := by
   obtain ⟨s, hs, h⟩ := isInclude_incA
   have hc := IsInclude.cond h
   obtain ⟨r, hr, hpl⟩ := fileA_plain
   have hf : fsOk.get? s.operand.text = some fileA := by rw [h.2.1]; decide
-  have hfr : front fsOk ([] ++ [incA] ++ []) ≠ .internal := by
-    show front fsOk [incA] ≠ _
-    rw [front_single_include_plain hs hc hf hr hpl]; simp
-  refine ⟨hfr, ?_⟩
-  have := include_textual_strong fsOk [] [] fileA incA _ isInclude_incA (by decide) hfr
+  have hfr : front fsOk ([] ++ [incA] ++ []) = .ok r := by
+    show front fsOk [incA] = _
+    exact front_single_include_plain hs hc hf hr hpl
+  refine ⟨⟨r, hfr⟩, ?_⟩
+  have := (include_textual_front_ok fsOk [] [] fileA incA _ r isInclude_incA (by decide) hfr).2
   simpa using this
 
 end CoCo.Props
